@@ -78,9 +78,11 @@ fn run_tree_history(mut it: Box<dyn DynIter + '_>, s: &[u128], c: &IterCase, who
                 ensure!(lo <= model.len() && hi.map_or(true, |h| h >= model.len()), "{who}: step {step}: size_hint() = ({lo}, {:?}) with {} elements left", hi, model.len());
             }
             IterOp::Nth(n) => {
+                // 250..=255 stand for usize::MAX - 5 ..= usize::MAX
+                let n: usize = if n >= 250 { usize::MAX - (255 - n) as usize } else { n as usize };
                 note("iter.nth", step as u128, n as u128, 0);
-                let g = it.nth(n as usize);
-                for _ in 0..(n as usize).min(model.len()) {
+                let g = it.nth(n);
+                for _ in 0..n.min(model.len()) {
                     model.pop_front();
                 }
                 let e = model.pop_front();
@@ -92,9 +94,10 @@ fn run_tree_history(mut it: Box<dyn DynIter + '_>, s: &[u128], c: &IterCase, who
                 }
             }
             IterOp::NthBack(n) => {
+                let n: usize = if n >= 250 { usize::MAX - (255 - n) as usize } else { n as usize };
                 note("iter.nth_back", step as u128, n as u128, 0);
-                let g = it.nth_back(n as usize);
-                for _ in 0..(n as usize).min(model.len()) {
+                let g = it.nth_back(n);
+                for _ in 0..n.min(model.len()) {
                     model.pop_back();
                 }
                 let e = model.pop_back();
@@ -161,6 +164,34 @@ pub fn check_adapters<'a, X: PartialEq + Copy + std::fmt::Debug>(mk: &dyn Fn() -
         ensure!(got == exp, "{who}: step_by({s}) yields {} items (first difference at {:?}), expected {} (n = {n})", got.len(), got.iter().zip(exp.iter()).position(|(a, b)| a != b), exp.len());
         ctx.q();
     }
+    // partially consumed iterator handed to fold-based consumers
+    for &k in &[1usize, 3, 255, 256, 257, n / 2, n.saturating_sub(2)] {
+        if k > n || n > 200_000 {
+            continue;
+        }
+        note("iter.for_each after next", k as u128, 0, 0);
+        let mut it = mk();
+        for _ in 0..k {
+            it.next();
+        }
+        let mut rest: Vec<X> = Vec::new();
+        it.for_each(|x| rest.push(x));
+        ensure!(rest[..] == e[k..], "{who}: for_each after {k} next() calls yields {} items (first difference at {:?}), expected {} (n = {n})", rest.len(), rest.iter().zip(e[k..].iter()).position(|(a, b)| a != b), n - k);
+        let mut it = mk();
+        for _ in 0..k {
+            it.next();
+        }
+        ensure!(it.count() == n - k, "{who}: count() after {k} next() calls != {}", n - k);
+        let mut it = mk();
+        for _ in 0..k {
+            it.next();
+        }
+        let l = it.last();
+        ensure!(l == if k < n { e.last().copied() } else { None }, "{who}: last() after {k} next() calls = {:?}", l);
+        let folded = mk().skip(k).fold(0usize, |a, _| a + 1);
+        ensure!(folded == n - k, "{who}: skip({k}).fold counts {folded}, expected {}", n - k);
+        ctx.q();
+    }
     if n <= 100_000 {
         note("iter.count/last", 0, 0, 0);
         ensure!(mk().count() == n, "{who}: count() = {}, expected {n}", mk().count());
@@ -195,7 +226,7 @@ impl Prop for C12 {
     fn id(&self) -> &'static str { "C12" }
     fn strategy(&self, tier: Tier, _b: &str) -> BoxedStrategy<IterCase> {
         let op = prop_oneof![6 => Just(IterOp::Next), 5 => Just(IterOp::NextBack), 2 => Just(IterOp::Len),
-            1 => prop_oneof![0u8..4, any::<u8>()].prop_map(IterOp::Nth), 1 => prop_oneof![0u8..4, any::<u8>()].prop_map(IterOp::NthBack)];
+            1 => prop_oneof![3 => 0u8..4, 2 => any::<u8>(), 1 => 250u8..=255].prop_map(IterOp::Nth), 1 => prop_oneof![3 => 0u8..4, 2 => any::<u8>(), 1 => 250u8..=255].prop_map(IterOp::NthBack)];
         let hist = prop_oneof![
             3 => proptest::collection::vec(op.clone(), 0..40),
             2 => proptest::collection::vec(op.clone(), 0..600),
@@ -213,8 +244,8 @@ impl Prop for C12 {
         match (tier, build) {
             (Tier::Quick, "fast") => 20_000,
             (Tier::Quick, _) => 8_000,
-            (Tier::Thorough, "fast") => 250_000,
-            (Tier::Thorough, _) => 80_000,
+            (Tier::Thorough, "fast") => 120_000,
+            (Tier::Thorough, _) => 30_000,
         }
     }
     fn rule(&self) -> &'static str {
